@@ -111,6 +111,8 @@ struct Reg {
       }
       return out;
     };
+    // zero sets of any size among the seven mode amplitudes of one primitive field (all 128 subsets per field)
+    s.zero_families = [](const std::vector<std::string>&) { std::vector<std::vector<std::string>> F; for (const char* f : {"rho", "u", "v", "w", "T"}) { std::vector<std::string> fam; for (const char* m : {"0", "x", "y", "z", "xy", "xz", "yz"}) fam.push_back(std::string("a_") + f + m); F.push_back(fam); } return F; };
     s.reference = pl_ref;
     s.max_dev_quick = 1; s.max_dev_thorough = 2;
     e1_systems().push_back(s);
